@@ -4,6 +4,7 @@ import (
 	"crypto/sha256"
 	"fmt"
 	"sort"
+	"strings"
 	"time"
 
 	"github.com/ontio/ontology-eventbus/actor"
@@ -153,6 +154,14 @@ type srvRun struct {
 	failKey   string
 	failMsg   string
 	fixed     []*task
+
+	// admission decisions of TxActor.handleTransaction as seen by the scheduler: the pool size a
+	// task read in its capacity check (GetTransactionCount) and whether it went on to take a slot
+	countSite  string
+	lastCount  map[*task]int
+	admitBelow int // admissions decided while the verified pool was below capacity
+	admitFull  int // admissions decided although the verified pool had reached capacity
+	fullSeen   int
 }
 
 func (r *srvRun) fail(key, format string, a ...interface{}) {
@@ -407,6 +416,32 @@ func (r *srvRun) exec(addWorkers func(*proc.TXPoolServer, int), getPool func(*pr
 		s.trace = func(l string) { fmt.Println("    sched", l) }
 	}
 	s.onStep = r.monitor
+	// the yield site of GetTransactionCount's return statement: the value a task reads when it
+	// resumes from there is the pool size at that instant
+	tc.SimYield = func(site string) { r.countSite = site }
+	r.pool.GetTransactionCount()
+	tc.SimYield = nil
+	r.lastCount = map[*task]int{}
+	s.onResume = func(t *task) {
+		if t.site == r.countSite {
+			r.lastCount[t] = r.poolLen(r.pool)
+		}
+	}
+	s.onYield = func(t *task, prev, at string) {
+		if prev != r.countSite || r.countSite == "" {
+			return
+		}
+		// after its capacity check handleTransaction either refuses (next site: the statistics
+		// mutex in txnpool_server.go) or takes a verification slot (next site in txnpool_actor.go)
+		if strings.HasPrefix(at, "txnpool_actor.go:") || strings.HasPrefix(at, "recvwait txnpool_actor.go:") {
+			if r.lastCount[t] >= r.cap {
+				r.admitFull++
+				r.fullSeen = r.lastCount[t]
+			} else {
+				r.admitBelow++
+			}
+		}
+	}
 	orderCalls, orderSeed := uint64(0), uint64(p.C("order", 1))
 	tc.SimOrder = func(n int) []int {
 		orderCalls++
@@ -703,9 +738,15 @@ func (r *srvRun) finish(drained bool) {
 	if len(poolIdx) > 0 {
 		run.Probe("srv_pool_nonempty_at_end")
 	}
+	if r.admitBelow > 0 {
+		run.Probe("srv_admission_observed")
+	}
 	if r.failKey != "" {
 		run.Fail("C37", r.failKey, "%s", r.failMsg)
-		return
+	}
+	if r.admitFull > 0 {
+		// NOT the known in-flight mechanism: the capacity check itself let a transaction through
+		run.Fail("C37", "admitted-while-pool-at-capacity", "TxActor.handleTransaction took a verification slot for a transaction although its capacity check read a verified pool of %d with MAX_CAPACITY=%d (%d such admissions)", r.fullSeen, r.cap, r.admitFull)
 	}
 	h := sha256.New()
 	h.Write(r.s.seq)
@@ -714,13 +755,16 @@ func (r *srvRun) finish(drained bool) {
 		run.Nontrivial(h.Sum(nil))
 	}
 	run.Sample = map[string]interface{}{"level": "server", "tasks": len(r.s.tasks), "steps": r.s.steps, "cap": r.cap, "lim": r.lim, "max_pool": r.maxPool, "pool_at_end": poolIdx}
-	if r.overAt > 0 {
-		key := "capacity-exceeded-by-in-flight-admissions"
-		how := "every transaction in it was admitted by TxActor.handleTransaction while the verified pool was still below MAX_CAPACITY"
-		if r.overBlock {
-			key = "capacity-exceeded-with-consensus-block-txs"
-			how = "some of them entered verification through a consensus VerifyBlockReq, which is not subject to the capacity check"
+	if r.overAt > 0 && r.admitFull == 0 {
+		// Exactly two explanations are accepted for an overshoot when every admission decision was
+		// taken below capacity; anything else gets its own key.
+		switch {
+		case r.overBlock:
+			run.Fail("C37", "capacity-exceeded-with-consensus-block-txs", "the verified pool reached %d transactions with MAX_CAPACITY=%d (MAX_LIMITATION=%d in-flight verifications): some of them entered verification through a consensus VerifyBlockReq, which is not subject to the capacity check", r.maxPool, r.cap, r.lim)
+		case r.admitBelow > 0:
+			run.Fail("C37", "capacity-exceeded-by-in-flight-admissions", "the verified pool reached %d transactions with MAX_CAPACITY=%d (MAX_LIMITATION=%d in-flight verifications): every transaction in it was admitted by TxActor.handleTransaction while the verified pool was still below MAX_CAPACITY (%d admissions observed below capacity, none at or above it)", r.maxPool, r.cap, r.lim, r.admitBelow)
+		default:
+			run.Fail("C37", "capacity-exceeded-unexplained", "the verified pool reached %d transactions with MAX_CAPACITY=%d although no admission through TxActor and no consensus block request was observed", r.maxPool, r.cap)
 		}
-		run.Fail("C37", key, "the verified pool reached %d transactions with MAX_CAPACITY=%d (MAX_LIMITATION=%d in-flight verifications): %s", r.maxPool, r.cap, r.lim, how)
 	}
 }
